@@ -131,12 +131,12 @@ class InMemoryStorage(BaseStorage):
     def get_study_user_attrs(self, study_id: int) -> dict[str, Any]:
         with self._lock:
             self._check_study_id(study_id)
-            return self._studies[study_id].user_attrs
+            return copy.deepcopy(self._studies[study_id].user_attrs)
 
     def get_study_system_attrs(self, study_id: int) -> dict[str, Any]:
         with self._lock:
             self._check_study_id(study_id)
-            return self._studies[study_id].system_attrs
+            return copy.deepcopy(self._studies[study_id].system_attrs)
 
     def get_all_studies(self) -> list[FrozenStudy]:
         with self._lock:
